@@ -478,6 +478,36 @@ class Model(object):
             raise Violation("pickle:exp-attrs", "%s sf %r->%r etype %r->%r" % (a, a.sf, b.sf, a.etype, b.etype))
         if not (hash(a) == hash(b)):
             raise Violation("pickle:exp-hash", "%s" % a)
+        # the sign declaration of every node survives, also where a node's flag differs from its operand's
+        # (a private signed / unsigned slice of the member, alone and inside a conditional)
+        from amoco.cas import expressions as E
+
+        def shape(e, d=0):
+            out = [type(e).__name__, e.size, bool(getattr(e, "sf", False))]
+            if d < 6:
+                for k in ("x", "l", "r", "tst", "a", "base"):
+                    c = getattr(e, k, None)
+                    if c is not None and hasattr(c, "size") and not callable(c):
+                        out.append(shape(c, d + 1))
+                if getattr(e, "_is_cmp", False):
+                    out += [shape(p_, d + 1) for _, p_ in sorted(e.parts.items())]
+            return tuple(out)
+
+        w = 1 + (a.size - 1) // 2
+        for flag in (True, False):
+            try:
+                s_ = a[0:w]
+                if s_ is a or not s_._is_slc:
+                    continue
+                s_.sf = flag
+                for obj in (s_, E.tst(E.reg("c1", 1), s_, E.cst(1, w))):
+                    o2 = pickle.loads(pickle.dumps(obj))
+                    if shape(o2) != shape(obj):
+                        raise Violation("pickle:exp-sign-flags", "%s (slice declared %s): node kinds/sizes/sign flags before %r after %r" % (obj, "signed" if flag else "unsigned", shape(obj)[:6], shape(o2)[:6]))
+            except Violation:
+                raise
+            except Exception:
+                pass
 
     def pickle_map(self, a, b, op):
         from amoco.cas import expressions as E
